@@ -203,7 +203,7 @@ var baseEnv = initBaseEnv(map[string]Extension{
 		EvalContextHandler: defaultContextHandler,
 	},
 	"round": {
-		Func:               jlib.Round,
+		Func:               round,
 		UndefinedHandler:   defaultUndefinedHandler,
 		EvalContextHandler: defaultContextHandler,
 	},
@@ -431,6 +431,16 @@ func lookup(v reflect.Value, name string) (interface{}, error) {
 
 func throw(msg string) (interface{}, error) {
 	return nil, errors.New(msg)
+}
+
+func round(x float64, prec jtypes.OptionalInt) (float64, error) {
+
+	res := jlib.Round(x, prec)
+	if math.IsInf(res, 0) || math.IsNaN(res) {
+		return 0, errors.New("the round function has resulted in a value that cannot be represented as a JSON number")
+	}
+
+	return res, nil
 }
 
 // Undefined handlers
